@@ -22,7 +22,9 @@ from .. import common, pytarget, ser
 from ..gen import programs
 from ..refeval import close, evaluate
 
-THEOREMS = ["Pt.slice_resynth_roundtrip", "Pt.slice_resynth_selects_same"]
+THEOREMS = ["Pt.slice_resynth_roundtrip", "Pt.slice_resynth_selects_same",
+            # the generator model (tied to the real generator by text: batch lean-generator-model-vs-real-text)
+            "Pt.Py.pygen_sound", "Pt.Py.pygen_refuses", "Pt.Py.outputs_aligned", "Pt.Py.fragment_check_sound"]
 
 def _not_supported():
     # NotImplementedError, or the explicit "this index lambda has no known high-level form" diagnostic
@@ -496,6 +498,8 @@ def batch_text_model(ctx):
     counts = {"same-text": 0, "both-refuse": 0, "unmodelled": 0, "disagree": 0}
     fam_counts: dict[str, dict[str, int]] = {}
     unmodelled: dict[str, int] = {}
+    in_fragment = 0
+    outside: dict[str, int] = {}
     for (label, expr, bp, real), a in zip(cases, answers):
         fam = label.split(":")[0]
         fc = fam_counts.setdefault(fam, {"same-text": 0, "both-refuse": 0, "unmodelled": 0, "disagree": 0})
@@ -511,6 +515,12 @@ def batch_text_model(ctx):
         if real[0] == "program" and m[0] == "program" and list(real[1]) == m[1] and list(real[2]) == m[2]:
             counts["same-text"] += 1
             fc["same-text"] += 1
+            # is the graph inside the fragment `pygen_sound` is proved for?
+            if m[3] == "yes":
+                in_fragment += 1
+            elif m[3] is not None:
+                for k in m[3][3:].split(","):
+                    outside[k] = outside.get(k, 0) + 1
             continue
         if real[0] != "program" and m[0] == "refuse":
             counts["both-refuse"] += 1
@@ -537,13 +547,16 @@ def batch_text_model(ctx):
             ctx.violation(f"pygen-text:{construct}",
                           f"{label}: the NumPy-like target {what_diff}; {bad}",
                           {"check": "pygen-text", "case": label, "real": real[1:] if real[0] == "program" else real,
-                           "model": m[1:], "observed": bad})
+                           "model": m[1:3] if m[0] == "program" else m[1:], "observed": bad})
         else:
             ctx.broken.append(f"correspondence:pygen-text:{fam}:{construct}:{label[:60]}:{ok}")
     total = sum(counts.values())
     ctx.note_batch("lean-generator-model-vs-real-text", total, dis, exhaustive=False, counts=counts,
                    per_family=fam_counts, unmodelled_reasons=unmodelled,
-                   modelled_fraction=round(1 - counts["unmodelled"] / max(total, 1), 4))
+                   modelled_fraction=round(1 - counts["unmodelled"] / max(total, 1), 4),
+                   programs_in_proved_fragment=in_fragment,
+                   proved_fragment_fraction=round(in_fragment / max(counts["same-text"], 1), 4),
+                   outside_fragment_node_kinds=dict(sorted(outside.items(), key=lambda kv: -kv[1])))
 
 
 
